@@ -198,6 +198,7 @@ func (r *Runner) exec(c model.Call) model.Obs {
 	var o model.Obs
 	o.T0 = w.Now()
 	var err error
+	var pullEnd time.Time // pullWaitPub: when the Pull itself returned
 	switch c.Op.K {
 	case "createTopic":
 		_, err = w.Pub.CreateTopic(ctx, &pubsubpb.Topic{Name: model.TopicPath(c.Op.Topic)})
@@ -266,6 +267,51 @@ func (r *Runner) exec(c model.Call) model.Obs {
 		_, err = w.Sub.UpdateSubscription(ctx, &pubsubpb.UpdateSubscriptionRequest{
 			Subscription: &pubsubpb.Subscription{Name: model.SubPath(c.Op.Sub), DeadLetterPolicy: &pubsubpb.DeadLetterPolicy{DeadLetterTopic: model.TopicPath(c.Op.Topic), MaxDeliveryAttempts: 3}, RetryPolicy: &pubsubpb.RetryPolicy{MinimumBackoff: durationpb.New(2 * time.Second)}},
 			UpdateMask:   &fieldmaskpb.FieldMask{Paths: []string{"dead_letter_policy", "retry_policy", "expiration_policy"}}})
+	case "pullWaitPub":
+		// a blocking Pull; D after its start a message is published to Topic
+		w.SetSerialTx(true)
+		defer w.SetSerialTx(false)
+		pubDone := make(chan struct{})
+		go func() {
+			defer close(pubDone)
+			if len(c.AckIDs) > 0 {
+				time.Sleep(c.Op.D / 3)
+				o.ModT0 = w.Now()
+				_, merr := w.Sub.ModifyAckDeadline(ctx, &pubsubpb.ModifyAckDeadlineRequest{Subscription: model.SubPath(c.Op.Sub), AckIds: c.AckIDs, AckDeadlineSeconds: 60})
+				o.ModT1 = w.Now()
+				o.ModErr = errCode(merr)
+				time.Sleep(c.Op.D - c.Op.D/3)
+			} else {
+				time.Sleep(c.Op.D)
+			}
+			o.PubT0 = w.Now()
+			presp, perr := w.Pub.Publish(ctx, &pubsubpb.PublishRequest{Topic: model.TopicPath(c.Op.Topic), Messages: []*pubsubpb.PubsubMessage{{Data: c.Payload[0]}}})
+			o.PubT1 = w.Now()
+			if perr != nil {
+				o.PubErr = errCode(perr)
+			} else {
+				o.IDs = presp.MessageIds
+			}
+		}()
+		var resp *pubsubpb.PullResponse
+		resp, err = w.Sub.Pull(ctx, &pubsubpb.PullRequest{Subscription: model.SubPath(c.Op.Sub), MaxMessages: int32(c.Op.Max)})
+		pullEnd = w.Now() // (the publisher may still be asleep: the pull's own end)
+		<-pubDone
+		if err == nil {
+			for _, rm := range resp.ReceivedMessages {
+				m := model.RecvMsg{AckID: rm.AckId, Attempt: int(rm.DeliveryAttempt)}
+				if rm.Message != nil {
+					m.MsgID = rm.Message.MessageId
+					m.Data = rm.Message.Data
+					m.Attrs = rm.Message.Attributes
+					m.Key = rm.Message.OrderingKey
+					if rm.Message.PublishTime != nil {
+						m.PubTime = w.ToLogical(rm.Message.PublishTime.AsTime())
+					}
+				}
+				o.Msgs = append(o.Msgs, m)
+			}
+		}
 	case "streamWait":
 		// a StreamingPull that waits for its first message (the streaming
 		// counterpart of a blocking Pull)
@@ -464,6 +510,9 @@ func (r *Runner) exec(c model.Call) model.Obs {
 		panic(fmt.Sprintf("exec: unknown op %q", c.Op.K))
 	}
 	o.T1 = w.Now()
+	if !pullEnd.IsZero() {
+		o.T1 = pullEnd
+	}
 	o.Err = errCode(err)
 	if r.Bare {
 		return o
